@@ -241,8 +241,16 @@ impl BlockStateTracker {
             let map = Self::map();
             if let Ok(r) = map.read() {
                 if let Some(b) = r.get(&block_id) {
-                    b.is_checkpointed.store(true, Ordering::Release);
-                    Some(b.file_path.clone())
+                    // Count a block towards its file's checkpointed total only the first time:
+                    // readers call this on every poll that finds the block exhausted (peeks and
+                    // empty batch reads do not advance the cursor), and startup marks blocks the
+                    // reader will pass again. Counting each call let the total reach
+                    // `total_blocks` while other blocks of the file were still unconsumed.
+                    if b.is_checkpointed.swap(true, Ordering::AcqRel) {
+                        None
+                    } else {
+                        Some(b.file_path.clone())
+                    }
                 } else {
                     None
                 }
